@@ -78,6 +78,8 @@ def one(kind, sername, beh, is_async, rp):
                 return "x" * 20000
             if beh == "apperror":
                 raise ApplicationError("com.myapp.error1", "bad", x=1)
+            if beh == "bigerror":
+                raise ApplicationError("com.myapp.error.big", "y" * 20000, why="z" * 300)
             if beh == "mapped":
                 raise Boom("mapped")
             raise RuntimeError("unmapped")
